@@ -16,34 +16,173 @@ theorem NoClose.tail {x : Iv Int} {xs : List (Iv Int)} (h : NoClose (x :: xs)) :
 theorem NoClose.sublist {l l' : List (Iv Int)} (h : NoClose l) (hs : ∀ x ∈ l', x ∈ l) : NoClose l' :=
   fun a ha b hb hab => h a (hs a ha) b (hs b hb) hab
 
-theorem deleteIv_of_mem (es : List (Iv Int)) (x : Iv Int) (hn : NoClose es) (hx : x ∈ es) :
-    deleteIv es x = .ok (es.erase x) := by
+theorem ivSame_iff (a b : Iv Int) : ivSame a b = true ↔ a = b := by
+  cases a; cases b
+  simp [ivSame]
+  constructor
+  · rintro ⟨⟨h1, h2⟩, h3⟩; exact ⟨h1, h2, h3⟩
+  · rintro ⟨h1, h2, h3⟩; exact ⟨⟨h1, h2⟩, h3⟩
+
+theorem ptSame_iff (a b : Pt Int) : ptSame a b = true ↔ a = b := by
+  cases a; cases b
+  simp [ptSame]
+
+/-- the exact search finds a member: it is `List.erase` -/
+theorem eraseSameIv_of_mem (es : List (Iv Int)) (x : Iv Int) (hx : x ∈ es) :
+    eraseSameIv es x = some (es.erase x) := by
   induction es with
   | nil => simp at hx
   | cons e rest ih =>
-    simp only [deleteIv]
-    by_cases he : ivEq e x = true
-    · have : e = x := hn e (by simp) x hx he
-      subst this
-      simp [he]
-    · have hne : e ≠ x := by intro h; subst h; exact he (ivEq_self e)
+    simp only [eraseSameIv]
+    by_cases he : e = x
+    · subst he
+      simp [(ivSame_iff e e).2 rfl]
+    · have hs : ivSame e x = false := by
+        cases h : ivSame e x
+        · rfl
+        · exact absurd ((ivSame_iff e x).1 h) he
       have hx' : x ∈ rest := by
         rcases List.mem_cons.1 hx with h | h
-        · exact absurd h.symm hne
+        · exact absurd h.symm he
         · exact h
-      simp only [he, Bool.false_eq_true, if_false, ih hn.tail hx']
-      simp only [Except.map]
+      simp only [hs, Bool.false_eq_true, if_false, ih hx', Option.map]
       rw [List.erase_cons_tail]
-      simpa using hne
+      simpa using he
 
-theorem deleteIv_not_mem (es : List (Iv Int)) (x : Iv Int) (h : ∀ e ∈ es, ivEq e x = false) :
-    deleteIv es x = .error .ValueError := by
+theorem eraseSameIv_none (es : List (Iv Int)) (x : Iv Int) (hx : x ∉ es) : eraseSameIv es x = none := by
   induction es with
   | nil => rfl
   | cons e rest ih =>
-    simp only [deleteIv, h e (by simp), Bool.false_eq_true, if_false,
+    have he : e ≠ x := fun h => hx (by simp [h])
+    have hs : ivSame e x = false := by
+      cases h : ivSame e x
+      · rfl
+      · exact absurd ((ivSame_iff e x).1 h) he
+    simp only [eraseSameIv, hs, Bool.false_eq_true, if_false, ih (fun h => hx (List.mem_cons_of_mem _ h)), Option.map]
+
+/-- **deleteEntry of a member removes exactly that member** — whatever else in the tier is close to it (this needed the
+separation hypothesis `NoClose` before the repair of `deleteEntry` in /repo; `_hn` is kept for the callers) -/
+theorem deleteIv_of_mem (es : List (Iv Int)) (x : Iv Int) (_hn : NoClose es) (hx : x ∈ es) :
+    deleteIv es x = .ok (es.erase x) := by
+  simp only [deleteIv, eraseSameIv_of_mem es x hx]
+
+theorem deleteIv_of_mem' (es : List (Iv Int)) (x : Iv Int) (hx : x ∈ es) :
+    deleteIv es x = .ok (es.erase x) := by
+  simp only [deleteIv, eraseSameIv_of_mem es x hx]
+
+theorem deleteIvTol_not_mem (es : List (Iv Int)) (x : Iv Int) (h : ∀ e ∈ es, ivEq e x = false) :
+    deleteIvTol es x = .error .ValueError := by
+  induction es with
+  | nil => rfl
+  | cons e rest ih =>
+    simp only [deleteIvTol, h e (by simp), Bool.false_eq_true, if_false,
       ih (fun e' he' => h e' (List.mem_cons_of_mem _ he'))]
     rfl
+
+theorem deleteIv_not_mem (es : List (Iv Int)) (x : Iv Int) (h : ∀ e ∈ es, ivEq e x = false) :
+    deleteIv es x = .error .ValueError := by
+  have hx : x ∉ es := fun hm => by
+    have := h x hm
+    rw [ivEq_self] at this
+    exact absurd this (by simp)
+  simp only [deleteIv, eraseSameIv_none es x hx, deleteIvTol_not_mem es x h]
+
+/-- whichever entry `deleteEntry` removes (exact or tolerant match), the rest is a sublist -/
+theorem eraseSameIv_sublist (es : List (Iv Int)) (x : Iv Int) (r : List (Iv Int)) (h : eraseSameIv es x = some r) :
+    r.Sublist es := by
+  induction es generalizing r with
+  | nil => simp [eraseSameIv] at h
+  | cons a as ih =>
+    simp only [eraseSameIv] at h
+    split at h
+    · simp only [Option.some.injEq] at h; subst h; exact List.sublist_cons_self _ _
+    · cases hr : eraseSameIv as x with
+      | none => rw [hr] at h; simp at h
+      | some r' =>
+        rw [hr] at h; simp only [Option.map, Option.some.injEq] at h; subst h
+        exact (ih r' hr).cons_cons a
+
+theorem deleteIvTol_sublist (es : List (Iv Int)) (x : Iv Int) (r : List (Iv Int)) (h : deleteIvTol es x = .ok r) :
+    r.Sublist es := by
+  induction es generalizing r with
+  | nil => simp [deleteIvTol] at h
+  | cons a as ih =>
+    simp only [deleteIvTol] at h
+    split at h
+    · simp only [Except.ok.injEq] at h; subst h; exact List.sublist_cons_self _ _
+    · cases hr : deleteIvTol as x with
+      | error e => rw [hr] at h; simp [Except.map] at h
+      | ok r' =>
+        rw [hr] at h; simp only [Except.map, Except.ok.injEq] at h; subst h
+        exact (ih r' hr).cons_cons a
+
+theorem deleteIv_sublist (es : List (Iv Int)) (x : Iv Int) (r : List (Iv Int)) (h : deleteIv es x = .ok r) :
+    r.Sublist es := by
+  simp only [deleteIv] at h
+  split at h
+  · rename_i r' hr; simp only [Except.ok.injEq] at h; subst h; exact eraseSameIv_sublist es x _ hr
+  · exact deleteIvTol_sublist es x r h
+
+theorem eraseSamePt_sublist (ps : List (Pt Int)) (x : Pt Int) (r : List (Pt Int)) (h : eraseSamePt ps x = some r) :
+    r.Sublist ps := by
+  induction ps generalizing r with
+  | nil => simp [eraseSamePt] at h
+  | cons a as ih =>
+    simp only [eraseSamePt] at h
+    split at h
+    · simp only [Option.some.injEq] at h; subst h; exact List.sublist_cons_self _ _
+    · cases hr : eraseSamePt as x with
+      | none => rw [hr] at h; simp at h
+      | some r' =>
+        rw [hr] at h; simp only [Option.map, Option.some.injEq] at h; subst h
+        exact (ih r' hr).cons_cons a
+
+theorem deletePtTol_sublist (ps : List (Pt Int)) (x : Pt Int) (r : List (Pt Int)) (h : deletePtTol ps x = .ok r) :
+    r.Sublist ps := by
+  induction ps generalizing r with
+  | nil => simp [deletePtTol] at h
+  | cons a as ih =>
+    simp only [deletePtTol] at h
+    split at h
+    · simp only [Except.ok.injEq] at h; subst h; exact List.sublist_cons_self _ _
+    · cases hr : deletePtTol as x with
+      | error e => rw [hr] at h; simp [Except.map] at h
+      | ok r' =>
+        rw [hr] at h; simp only [Except.map, Except.ok.injEq] at h; subst h
+        exact (ih r' hr).cons_cons a
+
+theorem deletePt_sublist' (ps : List (Pt Int)) (x : Pt Int) (r : List (Pt Int)) (h : deletePt ps x = .ok r) :
+    r.Sublist ps := by
+  simp only [deletePt] at h
+  split at h
+  · rename_i r' hr; simp only [Except.ok.injEq] at h; subst h; exact eraseSamePt_sublist ps x _ hr
+  · exact deletePtTol_sublist ps x r h
+
+/-- the exact search on points -/
+theorem eraseSamePt_of_mem (ps : List (Pt Int)) (x : Pt Int) (hx : x ∈ ps) :
+    eraseSamePt ps x = some (ps.erase x) := by
+  induction ps with
+  | nil => simp at hx
+  | cons e rest ih =>
+    simp only [eraseSamePt]
+    by_cases he : e = x
+    · subst he
+      simp [(ptSame_iff e e).2 rfl]
+    · have hs : ptSame e x = false := by
+        cases h : ptSame e x
+        · rfl
+        · exact absurd ((ptSame_iff e x).1 h) he
+      have hx' : x ∈ rest := by
+        rcases List.mem_cons.1 hx with h | h
+        · exact absurd h.symm he
+        · exact h
+      simp only [hs, Bool.false_eq_true, if_false, ih hx', Option.map]
+      rw [List.erase_cons_tail]
+      simpa using he
+
+/-- **deleteEntry of a member point removes exactly that point**, whatever else is close to it -/
+theorem deletePt_of_mem (ps : List (Pt Int)) (x : Pt Int) (hx : x ∈ ps) : deletePt ps x = .ok (ps.erase x) := by
+  simp only [deletePt, eraseSamePt_of_mem ps x hx]
 
 theorem nodup_of_wf (es : List (Iv Int)) (hp : Pos es) (hd : SetDisj es) : es.Nodup := by
   induction es with
